@@ -258,7 +258,7 @@ def main(argv):
         ctx.error("mode B: the bounds-check canary kernel did not raise IndexError")
     if hasattr(mod, "setup"):
         mod.setup(ctx)
-    cover_files = sorted({a[0] for a in getattr(mod, "ANCHORS", [])})
+    cover_files = sorted({a[0] for a in getattr(mod, "ANCHORS", [])} | set(spec.get("cover_files") or []))
     if os.environ.get("VERIF_COVER_ALL") == "1":
         from vf import cover
         cover_files = cover.all_repo_files(spec["repo"])
